@@ -299,9 +299,19 @@ func init() {
 				panic(pathAbort{"unsupported", "verifGuardedBy arguments"})
 			}
 			dp, ok1 := d.V.(PtrV)
+			if !ok1 || dp.O == nil {
+				panic(pathAbort{"unsupported", "verifGuardedBy needs a non-nil data pointer"})
+			}
+			if m.T == nil {
+				// no particular mutex named: Eraser-style candidate set (some lock must be
+				// held consistently on every access)
+				w.eraserSeq++
+				markGuard(dp.O, fmt.Sprintf("eraser#%d", w.eraserSeq))
+				return nil
+			}
 			mp, ok2 := m.V.(PtrV)
-			if !ok1 || !ok2 || dp.O == nil || mp.O == nil {
-				panic(pathAbort{"unsupported", "verifGuardedBy needs non-nil pointers"})
+			if !ok2 || mp.O == nil {
+				panic(pathAbort{"unsupported", "verifGuardedBy needs a non-nil mutex pointer"})
 			}
 			markGuard(dp.O, lockKey(mp.O))
 			return nil
@@ -443,7 +453,28 @@ func (w *Worker) noteAccess(o *Obj, write bool) {
 	if o.Guard == "" || w.inInit > 0 {
 		return
 	}
-	if w.locks[o.Guard] > 0 {
+	if strings.HasPrefix(o.Guard, "eraser#") {
+		held := map[string]bool{}
+		for k, n := range w.locks {
+			if n > 0 {
+				held[k] = true
+			}
+		}
+		cand, seen := w.eraser[o.Guard]
+		if !seen {
+			w.eraser[o.Guard] = held
+			cand = held
+		} else {
+			for k := range cand {
+				if !held[k] {
+					delete(cand, k)
+				}
+			}
+		}
+		if len(cand) > 0 {
+			return
+		}
+	} else if w.locks[o.Guard] > 0 {
 		return
 	}
 	kind := "read"
